@@ -187,9 +187,11 @@ fn index(input: &[u8]) -> IResult<&[u8], Index> {
         map(
             preceded(
                 tuple((tag_no_case("last"), multispace0, char('-'), multispace0)),
-                i32,
+                i64,
             ),
-            |v| Index::LastIndex(v.saturating_neg()),
+            // `last - 2147483648` is how `LastIndex(i32::MIN)` prints, so the offset is read
+            // wider than i32 and the negated value saturates into the i32 range.
+            |v| Index::LastIndex(v.saturating_neg().clamp(i32::MIN as i64, i32::MAX as i64) as i32),
         ),
         map(
             preceded(
